@@ -42,8 +42,12 @@ def run(ctx):
         kinds[k] = kinds.get(k, 0) + 1
     ctx.extra["configurations"] = kinds
     ctx.assumptions += [
-        "only calls that return are issued (a Pop goes out when accepted-minus-handed-out > 0 or after a "
-        "close); a call that parks in sync.Cond.Wait all the same is logged as reply 'blocked' and rejected",
+        "only calls that return are issued (a Pop goes out when the harness's own count model of the "
+        "property says non-empty or closed - never the implementation's replies); a call that parks all the "
+        "same is logged as reply 'blocked' and rejected",
+        "priq priorities are logged as RANKS among the priorities of the trace (harness-side integer "
+        "comparison); the real entries carry MinInt, MinInt+1, -1, 0, 1, MaxInt-1, MaxInt, random 64-bit "
+        "values and small ones (only the order of priorities matters to the property)",
         "priq capacities >= 1 only (whether capacity 0 means 'unbounded' or 'always full' is left open); "
         "list-queue capacities 0 (unbounded) and 1..5",
         "on a closed lane that also holds its capacity either refusal (closed / full) is accepted; "
